@@ -116,10 +116,30 @@ def sampler_cases(ctx, C, samplers, Vector3D, rng, count):
         fn = {(1, False): f1, (2, False): f2, (3, False): f3, (2, True): v2, (3, True): v3}[(dim, vector)]
         func = getattr(samplers, kind)
         if kind.endswith("_points"):
-            npts = rng.choice([1, 2, 5, 9])
-            pts = np.array([[dyadic(rng, -8, 8, 8) for _ in range(dim)] for _ in range(npts)])
-            ctx.crumb({"stage": "samplers", "sampler": kind, "points": pts.tolist()})
-            v = func(fn, pts[:, 0] if dim == 1 else pts)
+            rnd = ci // len(kinds)
+            npts = [1, 0, 2, 5, 9, 10, 11][rnd % 7] if rnd < 7 else rng.choice([1, 2, 5, 9, 100])
+            pts = np.array([[dyadic(rng, -8, 8, 8) for _ in range(dim)] for _ in range(npts)]).reshape(npts, dim)
+            if npts >= 5:
+                pts[3] = pts[0]            # repeated points are sampled again, in place
+                pts[-1] = pts[0]
+            arg = pts[:, 0] if dim == 1 else pts
+            # unusual but valid containers (recorded: a read-only array is rejected, see forms_rejected)
+            fk = (ci // len(kinds) + ci) % 6
+            pform = ["float64_array", "nested_lists", "nested_tuples", "float32_array", "non_contiguous_view", "fortran_order"][fk]
+            if fk == 1:
+                arg = arg.tolist()
+            elif fk == 2:
+                arg = tuple(arg.tolist()) if dim == 1 else tuple(tuple(r_) for r_ in arg.tolist())
+            elif fk == 3:
+                arg = arg.astype(np.float32)
+            elif fk == 4:
+                big = np.zeros((2 * npts,) + ((dim,) if dim > 1 else ()))
+                big[::2] = arg
+                arg = big[::2]
+            elif fk == 5 and dim > 1:
+                arg = np.asfortranarray(arg)
+            ctx.crumb({"stage": "samplers", "sampler": kind, "points": pts.tolist(), "form": pform})
+            v = func(fn, arg)
             got, ok = lookup(np.asarray(v), vector)
             spec = ok and got is not None and all(tuple(g) == tuple(p) for g, p in zip(got, pts.tolist()))
             if dim == 1:
@@ -127,13 +147,21 @@ def sampler_cases(ctx, C, samplers, Vector3D, rng, count):
             else:
                 tup = "[" + "; ".join("(" + ", ".join(qlit(float(t)) for t in p) + ")" for p in pts.tolist()) + "]"
                 expr = "chk_points%d %s %s" % (dim, tup, nested_q(got or [], 1))
-            C.add("sampler", "%s/n=%d" % (kind, npts), expr, {"sampler": kind, "points": pts.tolist(), "received_by_entry": got},
+            C.add("sampler", "%s/n=%d/%s" % (kind, npts, pform), expr, {"sampler": kind, "points": pts.tolist(), "received_by_entry": got, "form": pform},
                   spec, "%s: v[i] == f(points[i])" % kind)
             continue
         fixed = [(0.0, 0.0, 1), (-1.0, 0.0, 3), (0.0, 1.0, 2), (-0.0, 0.0, 2), (-1.0, 1.0, 3), (0.0, 2.0, 5), (0, 0, 2)]
         ranges = [gen_range(rng) for _ in range(dim)]
         if ci < 2 * len(kinds):          # the first two rounds use ranges with exact zeros as end points / grid points
             ranges = [fixed[(ci + 3 * d) % len(fixed)] for d in range(dim)]
+        rnd = ci // len(kinds)
+        if 2 <= rnd < 8 and dim <= 2:       # counts around 10 and 100 (loop bounds) on the first axis
+            a_, b_, _n = ranges[0]
+            ranges[0] = (a_, b_, [9, 10, 11, 99, 100, 101][rnd - 2])
+            if dim == 2:
+                ranges[1] = ranges[1][:2] + (min(ranges[1][2], 3),)
+        if dim == 3 and rnd == 2:
+            ranges = [(0.0, 1.0, 2), (-1.0, 1.0, 3), (0.0, 3.0, 4)]      # all three sizes different
         if dim == 3:
             while ranges[0][2] * ranges[1][2] * ranges[2][2] > 200:
                 ranges = [gen_range(rng) for _ in range(dim)]
@@ -141,11 +169,28 @@ def sampler_cases(ctx, C, samplers, Vector3D, rng, count):
         if kind.endswith("_grid"):
             axes = [np.linspace(a, b, n) if rng.randrange(2) else np.sort(np.array([dyadic(rng, -8, 8, 8) for _ in range(n)]))
                     for (a, b, n) in ranges]
-            v = func(fn, *axes)
+            given = []
+            for d_, ax_ in enumerate(axes):
+                fk = (ci + d_ + ci // len(kinds)) % 8
+                if fk == 1:
+                    ax_ = ax_[::-1].copy()                       # descending order is a valid axis
+                elif fk == 2 and len(ax_) > 1:
+                    ax_ = ax_.copy()
+                    ax_[-1] = ax_[0]                             # repeated coordinate
+                elif fk == 6 and d_ == 0 and ci >= len(kinds):
+                    ax_ = ax_[:0]                                # empty axis: an empty array comes back
+                axes[d_] = ax_
+                given.append(ax_.tolist() if fk == 3 else tuple(ax_.tolist()) if fk == 4 else
+                             np.repeat(ax_, 2)[::2] if fk == 5 else (ax_.astype(np.float32) if fk == 7 and np.array_equal(ax_.astype(np.float32), ax_) else ax_))
+            v = func(fn, *given)
             lin_ok = True
             lin_expr = []
         else:
-            res = func(fn, *ranges)
+            # the sample count as a numpy integer / an integral float, the end points as numpy scalars (all accepted)
+            fk = (ci // len(kinds)) % 4
+            given = [((a, b, np.int64(n)) if fk == 1 else (a, b, float(n)) if fk == 2 else (np.float64(a), np.float64(b), n) if fk == 3 else (a, b, n))
+                     for (a, b, n) in ranges]
+            res = func(fn, *given)
             axes, v = [np.asarray(t) for t in res[:dim]], res[dim]
             lin_ok = len(res) == dim + 1 and all(linspace_ok(ax, *rg) for ax, rg in zip(axes, ranges))
             lin_expr = ["chk_linspace %s %s %s %s" % (zlit(n), qlit(a), qlit(b), ql(ax)) for ax, (a, b, n) in zip(axes, ranges)]
